@@ -360,4 +360,40 @@ theorem loop_head_ledger (s0 : SimS) (k : Nat) (h : Good s0) :
     HoldsAfter (fun _ s => Good s) WInv ((ExceptT.run (do init; runK k : SimM Bool)).run s0) :=
   triple_run (do init; runK k : SimM Bool) _ _ _ (wholeK_both k) s0 h
 
+/-! ### initial states -/
+
+/-- A worker as the driver / the loaders build it: full capacity, duplicate-free resource keys,
+empty ledger, nothing placed, no batch placeholder. -/
+def workerFresh (w : Worker) : Bool :=
+  w.res.allocs.isEmpty && decide (w.res.avail = w.res.total) && decide ((AList.keys w.res.total).Nodup) &&
+  w.placed.isEmpty && w.batchTask.isEmpty
+
+/-- **Well-formed initial state for the ledger theorems** (decidable): `wf0` and every worker fresh. -/
+def lwf0 (s : SimS) : Bool := wf0 s && s.pools.all (fun p => p.workers.all workerFresh)
+
+theorem tok_of_fresh (w : Worker) (h : workerFresh w = true) : w.TOK := by
+  simp only [workerFresh, Bool.and_eq_true, List.isEmpty_iff, decide_eq_true_eq] at h
+  obtain ⟨⟨⟨⟨ha, hav⟩, hnd⟩, hp⟩, hbt⟩ := h
+  refine ⟨⟨by rw [hav], hnd, ?_, ?_⟩, ?_, ?_, ?_, ?_, ?_, ?_⟩
+  · intro x; rw [ha, hav]; simp
+  · intro c l hm; rw [ha] at hm; cases hm
+  · rw [ha]; exact List.nodup_nil
+  · rw [hp]; exact List.nodup_nil
+  · intro t s hs; rw [hp] at hs; simp [AList.get?] at hs
+  · intro t l hl; rw [ha] at hl; simp [AList.get?] at hl
+  · intro sid c hc; rw [hbt] at hc; cases hc
+  · intro p l hl; rw [ha] at hl; simp [AList.get?] at hl
+
+/-- **A well-formed initial state satisfies both invariants.** -/
+theorem good_initial (s : SimS) (h : lwf0 s = true) : Good s := by
+  simp only [lwf0, Bool.and_eq_true] at h
+  refine ⟨ap_initial s h.1, ?_⟩
+  intro p hp w hw
+  have h2 := h.2
+  rw [Array.all_eq_true] at h2
+  obtain ⟨i, hi, rfl⟩ := Array.getElem_of_mem (Array.mem_toList_iff.mp hp)
+  have h3 := h2 i hi
+  rw [List.all_eq_true] at h3
+  exact tok_of_fresh w (h3 w hw)
+
 end ErdosVerif.Model.Sim
